@@ -30,6 +30,12 @@ import PycsepVerif.PyPrelude
                                 `if c: return a else: return b`) is translated in place of the call
     `a['col']`                  column of a structured array of rows of an opaque type: `List.map col_<name> a`, with
                                 `col_<name>` an opaque projection parameter (TARGETS.columns gives its type)
+    `a[i, j, k] = v` (n-d)      `NdArr.setAt a [i, j, k] v`: an n-d array is its shape and a function from index tuples
+    `if A and B:` with an operation that can raise in B   the nested `if A: if B:` (else branch duplicated): B is evaluated
+                                only when A holds, as Python's short-circuit `and`
+    a function body from its first top-level loop on (TARGETS.body_from = "for")   the variables that are live at the loop
+                                (TARGETS.live_in) are parameters of the definition; the statements before it are listed in
+                                the header and are not part of the definition
     `x ** y` on floats          opaque parameter `pow` (transcendental; the hand models take its value as an input)
     in-place array update       `a.fill(v)`, `a[i] = v`, `numpy.add.at(a, idx, v)`, `a.append(v)`, `a += b` rebind the
                                 variable `a`; sound because the translator refuses a variable that has an alias
@@ -137,6 +143,27 @@ def maskSel {β : Type} : List β → List Bool → List β
 /-- `a[mask]` for a boolean array `mask`: IndexError unless it has the length of `a` -/
 def maskSelect {β : Type} (a : List β) (mask : List Bool) : M (List β) :=
   if a.length = mask.length then .ok (maskSel a mask) else .error (.py .indexError)
+
+/-- an n-d numpy array updated through integer index tuples: its shape and its content as a function of the index tuple
+    (entries outside the shape are never read by generated code) -/
+structure NdArr (β : Type) where
+  shape : List Nat
+  get : List Nat → β
+
+/-- an index tuple normalised axis by axis (negative indices count from the end of their axis) -/
+def normIdxs : List Nat → List Int → Option (List Nat)
+  | [], [] => some []
+  | n :: ns, i :: is =>
+    match normIdx n i, normIdxs ns is with
+    | some k, some ks => some (k :: ks)
+    | _, _ => none
+  | _, _ => none
+
+/-- `a[i, j, …] = v` with one integer per axis: IndexError outside the shape -/
+def NdArr.setAt {β : Type} (a : NdArr β) (idx : List Int) (v : β) : M (NdArr β) :=
+  match normIdxs a.shape idx with
+  | some j => .ok { a with get := fun q => if q = j then v else a.get q }
+  | none => .error (.py .indexError)
 
 /-- `a.append(v)` -/
 def append {β : Type} (a : List β) (v : β) : List β := a ++ [v]
